@@ -667,7 +667,9 @@ class C17(Check):
             cls = "reflush-resets-readers"
         else:
             cls = "main"
-        return "%s-%s" % (cls, kind)
+        # an input of a defect class is attributed to that defect whatever the symptom (wrong value, hang, crash:
+        # the outcome of the race differs from run to run); other inputs keep the symptom in the signature
+        return cls if cls != "main" else "main-%s" % kind
 
     def nontrivial_key(self, case):
         # non trivial: some tile is written by a task placed on a rank that does not own it (and flushed afterwards)
